@@ -51,4 +51,16 @@ func TestGocvWitnessC10(t *testing.T) {
 		fmt.Printf("GOCV-FAIL forged proof by re-weighting the child on the path: block 5 is owned by key a, the forged proof verifies with the trusted root %x and value %q\n", root[:6], v)
 		t.Fail()
 	}
+	// the same forgery made consistent one level down: the short node on the path also claims 8
+	short := PersistNodeBase{}
+	if err := cbor.Unmarshal(pt.Pairs[1].Value, &short); err == nil && short.Short != nil && len(short.Short.Value) == hashWithWeightLength {
+		binary.BigEndian.PutUint64(short.Short.Value[32:], 8)
+		pt.Pairs[1].Value, _ = cbor.Marshal(&short)
+		forged2, _ := cbor.Marshal(pt)
+		h, v, err := New(nil, nil).VerifyBlockProof(5, forged2)
+		if err == nil && bytes.Equal(h, root) && string(v) != "a" {
+			fmt.Printf("GOCV-FAIL forged proof by re-weighting the child on the path: (branch and short-node claims both rewritten) block 5 is owned by key a, the forged proof verifies with the trusted root %x and value %q\n", root[:6], v)
+			t.Fail()
+		}
+	}
 }
